@@ -61,8 +61,8 @@ def gen(seed: int, tier: str, idx=None):
     else:
         g.emit({"op": "new_doc", "rows": rows, "cols": cols, "hr": min(rng0.choice([0, 1, 1, 2]), rows), "hc": min(rng0.choice([0, 1, 1]), cols)})
     steps = rng0.randint(4, 24 if tier == "thorough" else 16)
-    weights = {"row_h": 6, "col_w": 6, "headers": 2, "caption": 3, "rename": 2, "add_table": 2, "border": 4, "observe": 5, "save": 3, "restart": 3, "write": 1}
-    for k in ("border", "observe"):
+    weights = {"row_h": 6, "col_w": 6, "headers": 2, "caption": 3, "rename": 2, "add_table": 2, "border": 4, "observe": 5, "save": 3, "restart": 3, "write": 1, "struct": 2}
+    for k in ("border", "observe", "struct"):
         if rng0.random() < 0.35:
             weights[k] = 0
     names, wts = list(weights), list(weights.values())
@@ -113,6 +113,18 @@ def gen(seed: int, tier: str, idx=None):
                     "scope": rng.choice(["cell", "row", "table"]), "r": rng.randrange(20), "c": rng.randrange(20)})
         elif kind == "write":
             g.emit({"op": "write", "d": 0, "s": s, "t": t, "r": g.index(tm.nrows), "c": g.index(tm.ncols), "v": V.enc(g.value())})
+        elif kind == "struct":
+            # rows/columns inserted or removed before, between and after sized ones: the model forgets what sits at or
+            # beyond the edit, the open document's own report must still survive the save
+            k2 = rng.choice(["add_row", "add_col", "del_row", "del_col"])
+            size = tm.nrows if "row" in k2 else tm.ncols
+            # not on tables that carry strokes: whether strokes travel with their cells is C15's business, and C15 does
+            # not quantify over structural edits (on the pinned tree they do not travel in the saved file - noted in DESIGN)
+            if tm.ncells() < 400 and (k2.startswith("add") or size > 1) and not tm.hedge and not tm.vedge and not g.cfg.get("on_fixture"):
+                o = {"op": k2, "d": 0, "s": s, "t": t, "n": 1 if rng.random() < 0.7 else min(2, max(1, size - 1))}
+                if rng.random() < 0.7:
+                    o["at"] = g.index(size)
+                g.emit(o)
         elif kind == "save":
             g.emit({"op": "save", "d": 0, "slot": rng.choice(ALL_SLOTS)})
         elif kind == "restart":
